@@ -1,5 +1,5 @@
 HOOK_COMMITS = ['50186a2']
-NOTES = ("Fix commits in /repo (genuine defects, see known_findings.json 'fixed'): f40c5b0, 05011a7, a30fe62, 1409e77. Proof tiers: G = any arithmetic, S = any "
+NOTES = ("Fix commits in /repo (genuine defects, see known_findings.json 'fixed'): f40c5b0, 05011a7, a30fe62, 1409e77, 9118133. Proof tiers: G = any arithmetic, S = any "
          "arithmetic satisfying the IEEE contract FloatSpec, B = S with explicit rounding-error bounds, E = exact reals, R = instantiated on the proved rounding "
          "arithmetic R64; see DESIGN.md §0/§6. ")
 NOT_YET = {}
